@@ -339,7 +339,8 @@ class Exec:
 
             buf = io.BytesIO()
             try:
-                exporter.export_module(self.obj(op["u"]), buf, pretty=bool(op.get("pretty")))
+                exporter.export_module(self.obj(op["u"]), buf, pretty=bool(op.get("pretty")),
+                                       compress=bool(op.get("compress")))
             except Exception as e:  # noqa: BLE001  (export problems are C20's business)
                 self.errors["reqif:" + type(e).__name__] += 1
         elif k == "dg.render":
@@ -487,6 +488,7 @@ def gen_ops(ctx: Ctx, model, label: str, size: str, crashes: list) -> list[dict]
     for u in mods:
         ops.append({"k": "reqif", "u": u})
         ops.append({"k": "reqif", "u": u, "pretty": True})
+        ops.append({"k": "reqif", "u": u, "compress": True})
 
     # diagrams
     fmts = formats()
@@ -794,6 +796,280 @@ def run_effects_tie(ctx: Ctx, out: Outcome, label: str, m) -> None:
     out.traces_validated += 1
 
 
+def barrier_loop(out: Outcome, label: str, m, ops: list[dict], edits: list | None) -> dict:
+    """Run `ops` one by one on a traced model; every mutator call on a model tree during an op is a finding: a net change
+    as `mutates|…` (with the structural diff), a change that is undone within the op as `writes-transient|…`."""
+    ex = Exec(m, label, None)
+    snap = fast_snap(m)
+    roots = copy_roots(m)
+    stats = {"ops": 0, "ops_with_writes": 0, "mutator_calls": 0}
+    for op in ops:
+        barrier.WRITES.clear()
+        try:
+            ex.run(op)
+        except common.InfraError:
+            raise
+        except Exception:  # noqa: BLE001
+            pass
+        stats["ops"] += 1
+        out.case((label, "barrier" if edits is None else "edited", common.sha(op)), None, True)
+        if not barrier.WRITES:
+            continue
+        writes = [barrier.describe(w) for w in barrier.WRITES[:20]]
+        stats["ops_with_writes"] += 1
+        stats["mutator_calls"] += len(barrier.WRITES)
+        s2 = fast_snap(m)
+        rop = op if edits is None else dict(op, edits=edits)
+        if s2 != snap:
+            report_mutation(out, label, rop, model_diff(roots, m), "write barrier" + ("" if edits is None else " (edited state)"))
+            snap, roots = s2, copy_roots(m)
+        else:
+            for dsc in writes[:3]:
+                out.find(f"writes-transient|{op_class(op)}|{dsc['elem']}@{dsc['key']}|{dsc['op']}",
+                         f"[{label}] read-only operation {op} called a mutator on a model tree ({dsc}); the serialisation is "
+                         f"unchanged afterwards (undone or idempotent), so only the barrier sees it",
+                         {"kind": "transient", "model": label, "op": rop, "writes": writes[:5]})
+    for sig, op, what in ex.crashes:
+        out.find("introspect|" + sig, f"[{label}] (edited state) {what}",
+                 {"kind": "introspect", "model": label, "op": op if edits is None else dict(op, edits=edits), "sig": sig})
+    return stats
+
+
+# ------------------------------------------------------------------ read surface on EDITED states
+
+HREF_ID = __import__("re").compile(r"#([0-9a-fA-F-]{36})")
+
+
+def drawn_uuids(model) -> list[str]:
+    """ids of the semantic elements the diagrams reference (`target` / `semanticElements` hrefs of the .aird)."""
+    seen: dict[str, None] = {}
+    for f in model._loader.trees.values():
+        if f.fragment_type.name != "VISUAL":
+            continue
+        for e in f.root.iter("semanticElements", "target"):
+            mm = HREF_ID.search(e.get("href") or "")
+            if mm:
+                seen.setdefault(mm.group(1))
+    return list(seen)
+
+
+def api_delete(obj) -> str | None:
+    """Delete `obj` through the API: remove it from the containment list of its parent that holds it."""
+    import inspect
+
+    from capellambse.model import ElementList
+
+    par = obj.parent
+    for a in dir(type(par)):
+        if a.startswith("_"):
+            continue
+        acc = inspect.getattr_static(type(par), a, None)
+        if type(acc).__name__ not in ("DirectProxyAccessor", "Containment", "RoleTagAccessor"):
+            continue
+        try:
+            lst = getattr(par, a)
+        except Exception:  # noqa: BLE001
+            continue
+        if isinstance(lst, ElementList) and any(x._element is obj._element for x in lst):
+            try:
+                lst.remove(obj)
+            except Exception:  # noqa: BLE001
+                continue
+            if obj._element.getparent() is None:
+                return a
+    return None
+
+
+def gen_edits(ctx: Ctx, model) -> list[dict]:
+    """A seeded edit history: delete / rename / move objects that are drawn on diagrams, and bring requirement data
+    into inconsistent-but-legal states. Descriptors only; `apply_edits` performs them."""
+    rng = ctx.rng
+    edits: list[dict] = []
+    drawn = []
+    for u in drawn_uuids(model):
+        try:
+            o = model.by_uuid(u)
+        except Exception:  # noqa: BLE001
+            continue
+        if type(o).__name__ in ("Diagram",) or not hasattr(o, "_element"):
+            continue
+        drawn.append(u)
+    rng.shuffle(drawn)
+    nd, nr, nm = ctx.pick(5, 14), ctx.pick(3, 8), ctx.pick(2, 6)
+    for u in drawn[:nd]:
+        edits.append({"e": "delete", "u": u})
+    for u in drawn[nd:nd + nr]:
+        edits.append({"e": "rename", "u": u, "v": rng.choice(["", "Renamed <&> ✓", "x" * 40])})
+    for u in drawn[nd + nr:nd + nr + nm]:
+        edits.append({"e": "move", "u": u, "pick": rng.randrange(1 << 16)})
+    # requirement data
+    try:
+        enums = [o.uuid for o in model.search("EnumerationValueAttribute")]
+        attrs = [o.uuid for o in model.search() if type(o).__name__.endswith("ValueAttribute")]
+        defs = [o.uuid for o in model.search("AttributeDefinitionEnumeration")]
+        adefs = [o.uuid for o in model.search("AttributeDefinition", "AttributeDefinitionEnumeration")]
+        mods = [o.uuid for o in model.search("CapellaModule")]
+        reqs = [o.uuid for o in model.search("Requirement")]
+    except Exception:  # noqa: BLE001
+        enums, attrs, defs, adefs, mods, reqs = [], [], [], [], [], []
+    for u in enums:
+        edits.append({"e": "enum-add-values", "u": u})
+    for u in defs:
+        edits.append({"e": "set", "u": u, "a": "multi_valued", "v": False})
+    for u in rng.sample(attrs, min(len(attrs), 2)):
+        edits.append({"e": "set", "u": u, "a": "definition", "v": None})
+    for u in rng.sample(adefs, min(len(adefs), 1)):
+        edits.append({"e": "set", "u": u, "a": "data_type", "v": None})
+    for u in rng.sample(reqs, min(len(reqs), 2)):
+        edits.append({"e": "set", "u": u, "a": "type", "v": None})
+    for u in mods[:1]:
+        edits.append({"e": "empty-module", "u": u})
+    rng.shuffle(edits)
+    return edits
+
+
+def apply_edits(model, edits: list[dict]) -> collections.Counter:
+    done: collections.Counter = collections.Counter()
+    for ed in edits:
+        try:
+            o = model.by_uuid(ed["u"])
+        except Exception:  # noqa: BLE001
+            done[ed["e"] + ":gone"] += 1
+            continue
+        try:
+            if ed["e"] == "delete":
+                done["delete:" + ("ok" if api_delete(o) else "no-containment-list")] += 1
+            elif ed["e"] == "rename":
+                o.name = ed["v"]
+                done["rename:ok"] += 1
+            elif ed["e"] == "move":
+                par = o.parent
+                sibs = [p for p in model.search(type(par).__name__) if p._element is not par._element
+                        and not any(a is o._element for a in p._element.iterancestors()) and p._element is not o._element]
+                if not sibs:
+                    done["move:no-destination"] += 1
+                    continue
+                dest = sibs[ed["pick"] % len(sibs)]
+                import inspect
+
+                moved = False
+                for a in dir(type(par)):
+                    acc = inspect.getattr_static(type(par), a, None)
+                    if a.startswith("_") or type(acc).__name__ not in ("DirectProxyAccessor", "Containment"):
+                        continue
+                    try:
+                        if any(x._element is o._element for x in getattr(par, a)):
+                            getattr(dest, a).append(o)
+                            moved = True
+                            break
+                    except Exception:  # noqa: BLE001
+                        continue
+                done["move:" + ("ok" if moved else "failed")] += 1
+            elif ed["e"] == "enum-add-values":
+                d = o.definition
+                pool = list(d.data_type.values) if d is not None and d.data_type is not None else []
+                have = {v.uuid for v in o.values}
+                for v in pool:
+                    if v.uuid not in have:
+                        o.values.append(v)
+                done["enum-add-values:" + str(min(len(o.values), 3))] += 1
+            elif ed["e"] == "set":
+                setattr(o, ed["a"], ed["v"])
+                done[f"set:{ed['a']}"] += 1
+            elif ed["e"] == "empty-module":
+                lst = o.parent.requirement_modules
+                lst.create(long_name="empty module")
+                done["empty-module:ok"] += 1
+        except Exception as e:  # noqa: BLE001
+            done[f"{ed['e']}:raised:{type(e).__name__}"] += 1
+    return done
+
+
+def edited_ops(ctx: Ctx, model, edits: list[dict]) -> list[dict]:
+    """The read surface that matters after an edit: every diagram in several formats and its introspection, requirement
+    export of every module in every mode, validation, metrics, and reads around the edited objects."""
+    rng = ctx.rng
+    ops: list[dict] = []
+    fmts = formats()
+    for d in [d.uuid for d in model.diagrams]:
+        ops.append({"k": "dg.render", "d": d, "fmt": None})
+        ops.append({"k": "dg.render", "d": d, "fmt": "svg", "pretty": rng.random() < 0.5})
+        for k in ("dg.html", "dg.repr", "dg.dir", "dg.short"):
+            ops.append({"k": k, "d": d})
+        for a in ("nodes", "semantic_nodes", "as_svg", "as_html_img", "target", "filters", "viewpoint", "type"):
+            ops.append({"k": "dg.attr", "d": d, "a": a, "deep": a in ("nodes",) and rng.random() < 0.3})
+        if ctx.thorough:
+            for f in fmts:
+                ops.append({"k": "dg.render", "d": d, "fmt": f})
+            ops.append({"k": "dg.mime", "d": d})
+    if list(model.diagrams):
+        ops.append({"k": "dglist"})
+    try:
+        mods = [o.uuid for o in model.search("CapellaModule")]
+    except Exception:  # noqa: BLE001
+        mods = []
+    for u in mods:
+        for kw in ({}, {"pretty": True}, {"compress": True}):
+            ops.append(dict({"k": "reqif", "u": u}, **kw))
+    ops.append({"k": "validate"})
+    ops.append({"k": "metrics"})
+    # reads around the edited objects (the objects themselves, their parents, requirement objects)
+    focus: list[str] = []
+    for ed in edits:
+        try:
+            o = model.by_uuid(ed["u"])
+            focus.append(o.uuid)
+            focus.append(o.parent.uuid)
+        except Exception:  # noqa: BLE001
+            continue
+    try:
+        focus += [o.uuid for o in model.search("Requirement", "EnumerationValueAttribute", "CapellaModule",
+                                               "AttributeDefinitionEnumeration")][:ctx.pick(40, 400)]
+    except Exception:  # noqa: BLE001
+        pass
+    for u in dict.fromkeys(focus):
+        try:
+            o = model.by_uuid(u)
+            names = [a for a in dir(o) if not a.startswith("_")]
+        except Exception:  # noqa: BLE001
+            continue
+        for a in names:
+            ops.append({"k": "attr", "u": u, "a": a, "deep": rng.random() < 0.2})
+        for k in ("repr", "html", "short", "dir"):
+            ops.append({"k": k, "u": u})
+    reps = [dict(rng.choice(ops)) for _ in range(len(ops) // 10)]
+    ops += reps
+    rng.shuffle(ops)
+    return ops
+
+
+def run_edited(ctx: Ctx, out: Outcome, label: str, size: str) -> None:
+    """Edit first (through the API), then nothing but reads, with the write barrier and the digest after every op."""
+    m = open_model_traced(ctx, label)
+    edits = gen_edits(ctx, m)
+    done = apply_edits(m, edits)
+    for k, v in done.items():
+        out.hit("edit:" + k, v)
+    ops = edited_ops(ctx, m, edits)
+    if not ctx.thorough and len(ops) > 2500:
+        heavy = [op for op in ops if op["k"] in ("dg.render", "dg.html", "reqif", "validate", "metrics")]
+        rest = [op for op in ops if op not in heavy]
+        ops = heavy + ctx.rng.sample(rest, 2500 - min(2500, len(heavy)))
+        ctx.rng.shuffle(ops)
+    stats = barrier_loop(out, label, m, ops, edits)
+    # the dangling visual references the deletes were meant to produce
+    dangling = 0
+    for u in drawn_uuids(m):
+        try:
+            m._loader[u]
+        except KeyError:
+            dangling += 1
+    out.hit("edited:dangling-diagram-references", dangling)
+    out.hit("edited:ops", stats["ops"])
+    out.extra.setdefault("edited", {})[label] = dict(stats, edits=len(edits), done=dict(done), dangling_diagram_refs=dangling)
+    out.traces_validated += 1
+
+
 def run_barrier(ctx: Ctx, out: Outcome, label: str, size: str) -> None:
     """Write barrier: a seeded sample of the read surface on a model whose lxml mutators are wrapped. A write that is
     undone before the next digest is seen here (and only here)."""
@@ -809,35 +1085,7 @@ def run_barrier(ctx: Ctx, out: Outcome, label: str, size: str) -> None:
         keep = [op for op in keep if op["k"] != "dg.attr" or not op.get("deep")] or keep
     ops = keep + rng.sample(rest, min(len(rest), n))
     rng.shuffle(ops)
-    ex = Exec(m, label, None)
-    snap = fast_snap(m)
-    roots = copy_roots(m)
-    stats = {"ops": 0, "ops_with_writes": 0, "mutator_calls": 0}
-    for op in ops:
-        barrier.WRITES.clear()
-        try:
-            ex.run(op)
-        except common.InfraError:
-            raise
-        except Exception:  # noqa: BLE001
-            pass
-        stats["ops"] += 1
-        out.case((label, "barrier", common.sha(op)), None, True)
-        if not barrier.WRITES:
-            continue
-        writes = [barrier.describe(w) for w in barrier.WRITES[:20]]
-        stats["ops_with_writes"] += 1
-        stats["mutator_calls"] += len(barrier.WRITES)
-        s2 = fast_snap(m)
-        if s2 != snap:
-            report_mutation(out, label, op, model_diff(roots, m), "write barrier")
-            snap, roots = s2, copy_roots(m)
-        else:
-            for dsc in writes[:3]:
-                out.find(f"writes-transient|{op_class(op)}|{dsc['elem']}@{dsc['key']}|{dsc['op']}",
-                         f"[{label}] read-only operation {op} called a mutator on a model tree ({dsc}); the serialisation is "
-                         f"unchanged afterwards (undone or idempotent), so only the barrier sees it",
-                         {"kind": "transient", "model": label, "op": op, "writes": writes[:5]})
+    stats = barrier_loop(out, label, m, ops, None)
     out.hit("barrier:ops", stats["ops"])
     out.hit("barrier:ops-with-mutator-calls", stats["ops_with_writes"])
     out.extra.setdefault("barrier", {})[label] = stats
@@ -1208,6 +1456,7 @@ def run(ctx: Ctx) -> Outcome:
         return r
 
     barrier_big = ctx.rng.choice([m[0] for m in MODELS if m[3] == "big"])
+    edited_big = "mm52" if barrier_big != "mm52" else "mm60"
     for label, _entry, _res, size in sel:
         st = timed("reads", run_reads, ctx, out, label, size)
         model = st.pop("model")
@@ -1227,6 +1476,8 @@ def run(ctx: Ctx) -> Outcome:
             timed("save-level", run_save_level, ctx, out, label, size)
         if size == "small" or ctx.thorough or label == barrier_big:
             timed("barrier", run_barrier, ctx, out, label, size)
+        if label in ("parser", "pvmt", "libproj") or ctx.thorough or label == edited_big:
+            timed("edited", run_edited, ctx, out, label, size)
     out.extra["seconds_by_phase"] = phase
     # synthetic-free correspondence: factories
     reqs = [factory_request(c) for c in fcases]
@@ -1334,6 +1585,8 @@ def replay(ctx: Ctx, case: dict):
         m = open_model(ctx, label)
         ex = Exec(m, label, None)
         op = case["op"]
+        if op.get("edits"):
+            apply_edits(m, op["edits"])
         if op.get("k") == "batch":
             return None
         before = full_snap(m)
@@ -1351,6 +1604,8 @@ def replay(ctx: Ctx, case: dict):
         m = open_model(ctx, label)
         ex = Exec(m, label, None)
         op = case["op"]
+        if op.get("edits"):
+            apply_edits(m, op["edits"])
         try:
             ex.run(op)
         except Exception as e:  # noqa: BLE001
@@ -1378,6 +1633,8 @@ def replay(ctx: Ctx, case: dict):
     if kind == "transient":
         m = open_model_traced(ctx, label)
         ex = Exec(m, label, None)
+        if case["op"].get("edits"):
+            apply_edits(m, case["op"]["edits"])
         barrier.WRITES.clear()
         try:
             ex.run(case["op"])
